@@ -1,5 +1,5 @@
 """Which verification tasks serve which property, and the fixed lists reported in every evidence file."""
-TASK_MODULES = ["pyvc.tasks_layer1", "pyvc.tasks_c07", "pyvc.tasks_c16", "pyvc.tasks_c20", "pyvc.tasks_c13", "pyvc.tasks_c04", "pyvc.tasks_c01", "pyvc.tasks_c19", "pyvc.tasks_l2"]
+TASK_MODULES = ["pyvc.tasks_layer1", "pyvc.tasks_c07", "pyvc.tasks_c16", "pyvc.tasks_c20", "pyvc.tasks_c13", "pyvc.tasks_c04", "pyvc.tasks_c01", "pyvc.tasks_c19", "pyvc.tasks_l2", "pyvc.tasks_c05", "pyvc.tasks_c13b"]
 
 L1_ALL = ["layer1/Circuit." + m for m in ("type", "is_output", "fanin", "fanout", "nodes", "edges", "connect", "disconnect", "remove",
                                           "set_output", "set_type", "outputs", "inputs", "io", "startpoints", "endpoints", "uid", "add[default]", "add[uid]")]
@@ -16,7 +16,8 @@ PROPERTY_TASKS = {
             "layer1/Circuit.inputs", "layer1/Circuit.outputs", "layer1/Circuit.transitive_fanin", "layer1/Circuit.transitive_fanout", "layer1/Circuit.is_cyclic"],
     "C01": ["C01/cnf", "C01/add_assumptions", "C01/solve[no assumptions]", "C01/solve[assumptions]"],
     "C04": ["C04/miter[self,default]", "C04/miter[pair,default]", "C04/miter[pair,explicit]", "C04/miter-encoding-lemma"],
-    "C13": ["C13/clog2"],
+    "C13": ["C13/clog2", "C13/half_adder", "C13/half_adder[body == contract]", "C13/full_adder"],
+    "C05": ["C05/limit_fanout[structure]", "C05/limit_fanin[structure]"],
     "C16": ["C16/remove_unloaded"],
     "C20": ["C20/lint"],
     "C19": ["layer1/Circuit.copy"],
@@ -28,6 +29,7 @@ DEPENDS_ON = {
             ("Circuit.add_subcircuit (literal name, no connections)", "C06")],
     "C16": [("Circuit.remove", "C07")] + [("Circuit." + m, "C12") for m in ("fanin", "fanout", "type", "is_output")],
     "C20": [("Circuit." + m, "C12") for m in ("type", "fanin", "fanout", "is_output", "nodes")],
+    "C05": [("Circuit.copy", "C19"), ("Circuit.add", "C07"), ("Circuit.disconnect", "C07"), ("Circuit.fanin", "C12"), ("Circuit.fanout", "C12"), ("Circuit.nodes", "C12"), ("Circuit.type", "C12")],
     "C06": [("Circuit.connect", "C07"), ("Circuit.add", "C07"), ("Circuit.remove", "C07"), ("Circuit.set_type", "C07"), ("Circuit.set_output", "C07"),
             ("Circuit.inputs", "C12"), ("Circuit.outputs", "C12")],
     "C07": [("Circuit." + m, "C12") for m in ("type", "fanin", "fanout", "inputs", "outputs")] + [("Circuit.add_subcircuit / add_blackbox (body == contract)", "C06")],
@@ -76,3 +78,6 @@ PROPERTY_TASKS["C07"] = PROPERTY_TASKS["C07"] + ["C07/add_blackbox", "C07/add_su
                                                  "C07/add_blackbox[connections] on the body", "C07/add_subcircuit[connections] on the body",
                                                  "C07/fill_blackbox on the body", "C07/set_output[list] on the body"]
 TASK_FILES["layer2"] = "circuitgraph/circuit.py"
+TASK_FILES["C05"] = "circuitgraph/tx.py"
+DEPENDS_ON["C13"] = [("Circuit.add", "C07"), ("Circuit.add_subcircuit with two connections (contract assumed for >= 2 connections)", "C06")]
+TASK_FILES["C13"] = "circuitgraph/logic.py"
